@@ -33,17 +33,17 @@ theorem BI_empty : BI ⟨[], []⟩ where
   live := by intro g h; cases h
 
 /-- a finished output shard of explode -/
-def GoodOut (o : Shard) : Prop := outShardOk o = true ∧ o.repos.length = 1
+def GoodOut (o : Shard) : Prop := outShardOk o = true ∧ o.repos.length = 1 ∧ realign o = o
 
-theorem goodOut_flatten (b : Builder) (hbi : BI b) (hne : NE b) (r : RepoMeta) (ds0 : List Doc)
+theorem goodOut_flatten (b : Builder) (hbi : BI b) (hne : NE b) (hoki : OKI b) (r : RepoMeta) (ds0 : List Doc)
     (hg : b.groups = [(r, ds0)]) : GoodOut b.flatten :=
-  ⟨outShardOk_flatten b hbi hne, by simp [Builder.flatten, hg]⟩
+  ⟨outShardOk_flatten b hbi hne, by simp [Builder.flatten, hg], realign_flatten b hoki⟩
 
 theorem explodeLoop_spec (sh : Shard) :
     ∀ (ds : List Doc) (last : Option Nat) (cur : Option Builder) (done : List Shard), DocsOk sh ds →
       ds.Pairwise (fun a c => a.repo ≤ c.repo) → (∀ l, last = some l → ∀ d ∈ ds, l ≤ d.repo) →
       ((last = none ∧ cur = none) ∨
-        (∃ l b r ds0, last = some l ∧ cur = some b ∧ BI b ∧ NE b ∧ b.groups = [(r, ds0)] ∧
+        (∃ l b r ds0, last = some l ∧ cur = some b ∧ BI b ∧ NE b ∧ OKI b ∧ b.groups = [(r, ds0)] ∧
           sh.repos[l]? = some r ∧ r.tomb = false)) →
       ∃ outs, explodeLoop sh ds last cur done = some outs ∧
         outs.flatMap flat = done.flatMap flat ++ curFlat cur ++ ds.filterMap (flatDoc sh) ∧
@@ -57,16 +57,16 @@ theorem explodeLoop_spec (sh : Shard) :
     rotate_left 3
     · cases cur <;> simp [curOut, curRepos, started, Builder.flatten]
     · unfold explodeLoop curOut; cases cur <;> rfl
-    · rcases hcur with ⟨_, rfl⟩ | ⟨l, b, r, ds0, _, rfl, hbi, _, _, _, _⟩
+    · rcases hcur with ⟨_, rfl⟩ | ⟨l, b, r, ds0, _, rfl, hbi, _, _, _, _, _⟩
       · simp [curOut, curFlat]
       · simp [curOut, curFlat, flat_flatten b hbi]
     · intro o ho
       rcases List.mem_append.1 ho with h | h
       · exact Or.inl h
-      · rcases hcur with ⟨_, rfl⟩ | ⟨l, b, r, ds0, _, rfl, hbi, hne, hg, _, _⟩
+      · rcases hcur with ⟨_, rfl⟩ | ⟨l, b, r, ds0, _, rfl, hbi, hne, hoki, hg, _, _⟩
         · simp [curOut] at h
         · simp only [curOut, List.mem_singleton] at h; subst h
-          exact Or.inr (goodOut_flatten b hbi hne r ds0 hg)
+          exact Or.inr (goodOut_flatten b hbi hne hoki r ds0 hg)
   | cons d ds ih =>
     intro last cur done hok hpw hlast hcur
     obtain ⟨r, hr, hdoc⟩ := hok d (by simp)
@@ -85,18 +85,18 @@ theorem explodeLoop_spec (sh : Shard) :
       simp only [Bool.false_eq_true, if_false]
       by_cases hsame : last = some d.repo
       · rw [if_pos hsame]
-        rcases hcur with ⟨hl, _⟩ | ⟨l, b, r', ds0, hl, hc, hbi, hne, hg, hr', _⟩
+        rcases hcur with ⟨hl, _⟩ | ⟨l, b, r', ds0, hl, hc, hbi, hne, hoki, hg, hr', _⟩
         · rw [hl] at hsame; cases hsame
         · rw [hl] at hsame; cases hsame
           rw [hr] at hr'; cases hr'
           subst hc
           subst hl
-          obtain ⟨b2, ds', hadd, hbi2, hfl2, hg2, hds', _⟩ := add_spec sh.langs b [] r ds0 (by simpa using hg) hbi d hdoc'
+          obtain ⟨b2, ds', hadd, hbi2, hfl2, hg2, hds', hoki2⟩ := add_spec sh.langs b [] r ds0 (by simpa using hg) hbi d hdoc'
           simp only [hadd]
           have hne2 : NE b2 := by
             intro g hgm; rw [hg2] at hgm; simp at hgm; subst hgm; exact hds'
           obtain ⟨outs, he, hfl, hgood, hrep⟩ := ih (some d.repo) (some b2) done hok' hpw.2 hnext
-            (Or.inr ⟨d.repo, b2, r, ds', rfl, rfl, hbi2, hne2, by simpa using hg2, hr, ht⟩)
+            (Or.inr ⟨d.repo, b2, r, ds', rfl, rfl, hbi2, hne2, hoki2 hoki, by simpa using hg2, hr, ht⟩)
           refine ⟨outs, he, ?_, hgood, ?_⟩
           · rw [hfl]; simp [curFlat, hfl2]
           · rw [hrep, started_cons]; simp [hr, ht, curRepos, hg, hg2]
@@ -107,7 +107,7 @@ theorem explodeLoop_spec (sh : Shard) :
         unfold Builder.setRepository
         have hlen : ¬ r.branches.length > 64 := by have := hdoc'.br_len; omega
         simp only [hlen, if_false]
-        obtain ⟨b2, ds', hadd, hbi2, hfl2, hg2, hds', _⟩ :=
+        obtain ⟨b2, ds', hadd, hbi2, hfl2, hg2, hds', hoki2⟩ :=
           add_spec sh.langs { groups := [] ++ [(r, [])], langs := [] } [] r [] rfl
             (BI_setRepository ⟨[], []⟩ r BI_empty ht) d hdoc'
         simp only [hadd]
@@ -115,7 +115,8 @@ theorem explodeLoop_spec (sh : Shard) :
           intro g hgm; rw [hg2] at hgm; simp at hgm; subst hgm; exact hds'
         have hbf0 : bflat ({ groups := [(r, [])], langs := [] } : Builder) = [] := by simp [bflat]
         obtain ⟨outs, he, hfl, hgood, hrep⟩ := ih (some d.repo) (some b2) (done ++ curOut cur) hok' hpw.2 hnext
-          (Or.inr ⟨d.repo, b2, r, ds', rfl, rfl, hbi2, hne2, by simpa using hg2, hr, ht⟩)
+          (Or.inr ⟨d.repo, b2, r, ds', rfl, rfl, hbi2, hne2,
+            hoki2 (OKI_setRepository ⟨[], []⟩ r (by intro g hg; cases hg)), by simpa using hg2, hr, ht⟩)
         refine ⟨outs, ?_, ?_, ?_, ?_⟩
         rotate_left 3
         · rw [hrep, started_cons]
@@ -125,7 +126,7 @@ theorem explodeLoop_spec (sh : Shard) :
         · rw [← he]; unfold curOut; cases cur <;> rfl
         · rw [hfl]
           have : (curOut cur).flatMap flat = curFlat cur := by
-            rcases hcur with ⟨_, rfl⟩ | ⟨l, b, r', ds0, _, rfl, hbi, _, _, _, _⟩
+            rcases hcur with ⟨_, rfl⟩ | ⟨l, b, r', ds0, _, rfl, hbi, _, _, _, _, _⟩
             · simp [curOut, curFlat]
             · simp [curOut, curFlat, flat_flatten b hbi]
           simp only [List.flatMap_append, this, curFlat, hfl2]
@@ -135,10 +136,10 @@ theorem explodeLoop_spec (sh : Shard) :
           rcases hgood o ho with h | h
           · rcases List.mem_append.1 h with h1 | h1
             · exact Or.inl h1
-            · rcases hcur with ⟨_, rfl⟩ | ⟨l, b, r', ds0, _, rfl, hbi, hne, hg, _, _⟩
+            · rcases hcur with ⟨_, rfl⟩ | ⟨l, b, r', ds0, _, rfl, hbi, hne, hoki, hg, _, _⟩
               · simp [curOut] at h1
               · simp only [curOut, List.mem_singleton] at h1; subst h1
-                exact Or.inr (goodOut_flatten b hbi hne r' ds0 hg)
+                exact Or.inr (goodOut_flatten b hbi hne hoki r' ds0 hg)
           · exact Or.inr h
     · simp only [if_true]
       rw [hfd, ht]
